@@ -11,6 +11,7 @@ from copy import deepcopy
 from dataclasses import asdict, dataclass, field, fields, KW_ONLY
 from decimal import Decimal
 from functools import partial
+from itertools import accumulate
 from math import inf
 from operator import add, itemgetter
 from re import (
@@ -1158,8 +1159,11 @@ class HandHistory(Iterable[State]):
                     )
 
                 if isinstance(operation, BoardDealing):
-                    actions += '/'
-                    board_cards += '/' + ''.join(map(repr, operation.cards))
+                    if _begins_street(state, board_cards):
+                        actions += '/'
+                        board_cards += '/'
+
+                    board_cards += ''.join(map(repr, operation.cards))
 
                 hole_cards = '|'.join(map(''.join, raw_hole_cards))
                 match_state = (
@@ -1235,8 +1239,11 @@ class HandHistory(Iterable[State]):
                         operation.hole_cards,
                     )
                 elif isinstance(operation, BoardDealing):
-                    actions += '/'
-                    board_cards += '/' + ''.join(map(repr, operation.cards))
+                    if _begins_street(state, board_cards):
+                        actions += '/'
+                        board_cards += '/'
+
+                    board_cards += ''.join(map(repr, operation.cards))
 
         hole_cards = '|'.join(map(''.join, raw_hole_cards))
         raw_payoffs = []
@@ -1272,6 +1279,16 @@ class HandHistory(Iterable[State]):
         )
 
         return match_state
+
+
+def _begins_street(state: State, raw_board_cards: str) -> bool:
+    count = len(tuple(Card.parse(raw_board_cards.replace('/', ''))))
+    counts = accumulate(
+        (street.board_dealing_count for street in state.streets),
+        initial=0,
+    )
+
+    return count in counts
 
 
 def _update_raw_hole_cards(
